@@ -45,7 +45,7 @@ def options_history(ctx: evid.Ctx) -> None:
     """Messages carrying application-registered types, round-tripped with ONE options object that has a history:
     it decoded plain messages before the type was registered, and other types were registered in between."""
     import sansldap as L
-    from sansldap._messages import PackingOptions
+    PackingOptions = A.lib("PackingOptions")
 
     from vf.checks.c19 import ACred, FFilter, XControl
 
